@@ -83,3 +83,20 @@ Theorem C12_redis_mismatch_rejected : forall s a b,
   rc_rows a <> rc_rows b \/ rc_cols a <> rc_cols b -> rcms_merge s a b = (Err E_MISMATCH, s).
 Proof. exact RedisExtras.rcms_merge_mismatch. Qed.
 Print Assumptions C12_redis_mismatch_rejected.
+
+(* Redis, end to end: two Redis-backed sketches representing the sketches of two streams (totals
+   below 2^53); after Merge the receiver answers every Count exactly as ONE sketch fed the
+   concatenated stream, and the argument still represents its own stream *)
+From GX.Proofs Require RedisCMSMerge.
+Theorem C12_redis_merge_is_combined_stream : forall (cpos : N -> N -> bytes -> list N) rows cols,
+  (forall x, length (cpos rows cols x) = N.to_nat rows) ->
+  (forall x p, In p (cpos rows cols x) -> p < cols) ->
+  forall s a b sa sb ha hb,
+  cms_new rows cols = Ok sa -> cms_new rows cols = Ok sb -> total (ha ++ hb) + 2 <= B53 ->
+  refines rows cols s a (run_hist cpos sa ha) -> refines rows cols s b (run_hist cpos sb hb) ->
+  length (rc_key a) = length (rc_key b) -> rc_key a <> rc_key b ->
+  exists s', rcms_merge s a b = (Ok tt, s') /\
+    (forall x, rcms_count cpos s' a x = Ok (cms_count cpos (run_hist cpos sa (ha ++ hb)) x)) /\
+    refines rows cols s' b (run_hist cpos sb hb).
+Proof. exact RedisCMSMerge.redis_merge_is_combined_stream. Qed.
+Print Assumptions C12_redis_merge_is_combined_stream.
